@@ -54,6 +54,9 @@ class IsoTpStateMachine:
         except ValueError:
             return  # unknown CAN ID
 
+        if len(data) == 0:
+            return  # empty CAN frames cannot be ISO-TP segments
+
         # decode the isotp segment
         frame_type, _ = bitstruct.unpack("u4u4", data)
         assert isinstance(frame_type, int)
@@ -78,6 +81,11 @@ class IsoTpStateMachine:
             yield (rx_id, telegram_payload)
 
         elif frame_type == IsoTp.FRAME_TYPE_FIRST:
+            if len(data) < 2:
+                # frame is too short to specify the telegram length
+                self.on_frame_type_error(telegram_idx, frame_type)
+                return
+
             frame_type, telegram_len = bitstruct.unpack("u4u12", data)
             assert isinstance(telegram_len, int)
 
